@@ -279,7 +279,7 @@ class PolyState(Memory):
         if c is not None:
             return {(): c} if c else {}
         if k == "var":
-            return self.snap[t] if t in self.snap else {(t,): 1}
+            return self.snap[t] if t in self.snap else {(t,): 1}      # None: the local holds something opaque
         if k in ("idx", "fld"):
             return self.read(lvalue_location(t, env))
         if k == "poly":
@@ -312,8 +312,7 @@ class PolyState(Memory):
         if x["e"] == "local":
             t = x["new"] if isinstance(x.get("new"), tuple) else x.get("val")
             val = self.value(t, env) if isinstance(t, tuple) else None
-            if val is None:
-                raise NotEvaluable("value %s of %s at line %s" % (sym.show(t)[:100] if isinstance(t, tuple) else t, x["name"], x.get("l")))
+            # a local whose value is not a polynomial (a pointer, a float): opaque, an error only if it is read as a number
             self.live[("var", x["name"], x["id"])] = val
             return
         val = self.value(x["val"], env) if isinstance(x.get("val"), tuple) else None
